@@ -198,6 +198,9 @@ def shard_include(shard):
                     (b'include("a.conf")', {b'a.conf': b'\ninclude("b.conf")\ni = 7', b'b.conf': T}),
                     (b'include("a.conf") ' + T, {b'a.conf': b'include("b.conf")\n', b'b.conf': b'\n\n# c\n'}),
                     (b'sec {\ninclude("a.conf")\n}\n' + T, {b'a.conf': b'x = 3\n'}),
+                    (b'sec { x = 2 }\nm { }\ninclude("a.conf")', {b'a.conf': T}),
+                    (b'include("a.conf")\n' + T, {b'a.conf': b'sec { x = 2 }\nm { }\n'}),
+                    (b'include("a.conf")\ninclude("b.conf")', {b'a.conf': b'sec {\n}\n', b'b.conf': T}),
                 ]
                 for main, files in variants:
                     m = reftext.meaning(sch, flags, main, files=reftext.Files(dict(files)))
@@ -249,7 +252,7 @@ def main():
                 shards.append(('I1', flags, 0, inner, dl))
                 for ch in engine.chunks(frontier, 2):
                     shards.append(('I1', flags, dev, ch, dl))
-            engine.phase(ck, 'E1 N=%d inside and after included files (depth 1, 2)' % dev, shard_include, shards, variants=6)
+            engine.phase(ck, 'E1 N=%d inside and after included files (depth 1, 2; sections re-entered from another source)' % dev, shard_include, shards, variants=9)
             continue
         shards = []
         for sid in USE:
